@@ -15,6 +15,7 @@
 # Supported: parameters and locals of integer / char / bool type; = and compound assignment, ++ -- (as statements);
 # + - * / % comparisons && || ! & | ^ ~ << >> ?: ; casts between integer types (wrap-around written out, value
 # preserving conversions dropped); if/else, switch over constants (with fall-through), return, while / do / for
+# QIntC::to_<T>(x) (-> lf_checked: x inside T's range, a value outside T's range where the C++ throws);
 # (-> structural recursion on explicit fuel, the state being every variable in scope, the code after the loop inlined
 # in the exit branch), break / continue; direct self-recursion (-> fuel); calls of other translated leaves; reads of
 # translated constants and of translated tables (table[i]); static const arrays, scalars, enums, string literals.
@@ -57,6 +58,8 @@ def T(file, filt, kind, sym, out, owner, lang="c++", **kw):
 
 TARGETS = [
     # ---- C02: writer arithmetic
+    T("QPDFWriter.cc", "calculateXrefStreamPadding", "func", "_ZN4qpdf4impl6Writer26calculateXrefStreamPaddingEx", "calculateXrefStreamPadding", "C02",
+      dom=[(0, 2 ** 62)]),              # a negative result makes QIntC::to_size throw; above 2^63 - 16384 the addition overflows
     T("QPDFWriter.cc", "bytesNeeded", "func", "_ZN4qpdf4impl6Writer11bytesNeededEx", "bytesNeeded", "C02",
       dom=[(0, 2 ** 63 - 1)]),          # a negative n never leaves the loop
     # ---- C07: linearization
@@ -490,7 +493,7 @@ class Fn:
     # ---- expressions: return (code, type)
     def E(self, n, env):
         k = n.get("kind")
-        if k in ("ParenExpr", "ConstantExpr", "ExprWithCleanups"):
+        if k in ("ParenExpr", "ConstantExpr", "ExprWithCleanups", "MaterializeTemporaryExpr"):
             return self.E(n["inner"][0], env)
         if k == "IntegerLiteral":
             return zlit(int(n["value"])), ctype(n)
@@ -636,6 +639,19 @@ class Fn:
         if cal.get("kind") != "DeclRefExpr":
             fail("call through %s (only direct calls of translated leaves)" % cal.get("kind"))
         rd = cal["referencedDecl"]
+        if re.match(r"^to_(char|uchar|int|uint|size|offset|long|ulong|longlong|ulonglong)$", rd.get("name", "")) and \
+                self.tr.written_qualifier(cal, rd["name"]) == ["QIntC"] and len(n["inner"]) == 2 and \
+                re.match(r"^[\w ]+ \(const [\w ]+ &\)$", (rd.get("type") or {}).get("qualType", "")):
+            # QIntC::to_T(x) (include/qpdf/QIntC.hh): x if it is representable in T, otherwise std::range_error is thrown
+            arg = n["inner"][1]
+            c, ty = self.E(arg, env)
+            dst = ctype(n, "result of QIntC::%s" % rd["name"])
+            if ty == BOOL or dst == BOOL:
+                fail("QIntC conversion on bool")
+            (lo, hi), (dlo, dhi) = trange(ty), trange(dst)
+            if dlo <= lo and hi <= dhi:
+                return c, dst
+            return "(lf_checked %s %s %s)" % (zlit(dlo), zlit(dhi), c), dst
         args = []
         for a in n["inner"][1:]:
             if a.get("kind") == "CXXDefaultArgExpr":
@@ -971,11 +987,22 @@ class Fn:
 
     def translate(self):
         n = self.node
-        fty = n["type"]["qualType"]
+        fty = n["type"].get("desugaredQualType") or n["type"]["qualType"]
         m = re.match(r"^(.*?)\s*\((.*)\)(\s*const)?(\s*noexcept)?$", fty)
         if not m:
             fail("function type '%s'" % fty)
-        self.ret = ctype_of(m.group(1), "return value")
+        try:
+            self.ret = ctype_of(m.group(1), "return value")
+        except Unsupported:
+            # a typedef name (size_t, qpdf_offset_t): clang converts every returned expression to the return type, and those
+            # expressions carry the desugared type
+            rts = set()
+            for x in walk(n):
+                if x.get("kind") == "ReturnStmt" and x.get("inner"):
+                    rts.add(ctype(x["inner"][0], "return value"))
+            if len(rts) != 1:
+                raise
+            self.ret = list(rts)[0]
         env = []
         body = None
         for c in n.get("inner", []):
